@@ -43,6 +43,7 @@
 #include "Variogram/VarioParam.hpp"
 
 #include <memory>
+#include <ctime>
 
 using namespace vh;
 using ref::LD;
@@ -1025,7 +1026,15 @@ static void useModel(Rng& r, Ctx& c, const Cfg& g, Model* m)
 }
 
 // ------------------------------------------------------------------------------------------------
+static void run_case_inner(Rng& r, Ctx& c);
 static void run_case(Rng& r, Ctx& c)
+{
+  // CPU time of the case is written to the sample (development aid: finds slow input classes under machine load)
+  clock_t t0 = clock();
+  struct Stamp { Ctx& c; clock_t t0; ~Stamp() { c.putn("cpu_s", (double)(clock() - t0) / CLOCKS_PER_SEC); } } stamp{c, t0};
+  run_case_inner(r, c);
+}
+static void run_case_inner(Rng& r, Ctx& c)
 {
   buildCatalog();
   Cfg g = drawCfg(r, c.thorough());
